@@ -98,6 +98,10 @@ pub struct SimTls {
     pub probe_slot: Option<(u64, u64, u64)>,
     pub probe_stack: Option<(u64, u64)>,
     pub calc_calls: u64,
+    /// hash of the bytes a harness verifier has rejected during the API call in progress
+    pub rejected: Option<u64>,
+    /// consultations of the stack-usage calculator about exactly those bytes, after the rejection
+    pub calc_after_rejection: u64,
 }
 
 thread_local! {
@@ -122,6 +126,11 @@ fn verr(msg: &str) -> Result<(), Error> {
     Err(Error::other(format!("[harness verifier] {}", msg)))
 }
 
+/// The verifier is about to answer Err for these bytes.
+fn rejecting(prog: &[u8]) {
+    tls(|t| t.rejected = Some(simcore::hash_bytes(prog)));
+}
+
 fn vlog(vid: u8, prog: &[u8]) -> bool {
     tls(|t| {
         t.verifier_log.push((vid, simcore::hash_bytes(prog), prog.len()));
@@ -144,40 +153,50 @@ pub fn default_verifier_accepts(prog: &[u8]) -> bool {
 
 fn v_default_eq(prog: &[u8]) -> Result<(), Error> {
     if vlog(V_DEFAULT_EQ, prog) {
+        rejecting(prog);
         return verr("injected veto");
     }
     match rbpf::EbpfVmMbuff::new(Some(prog)) {
         Ok(_) => Ok(()),
-        Err(e) => Err(e),
+        Err(e) => {
+            rejecting(prog);
+            Err(e)
+        }
     }
 }
 fn v_accept_all(prog: &[u8]) -> Result<(), Error> {
     if vlog(V_ACCEPT_ALL, prog) {
+        rejecting(prog);
         return verr("injected veto");
     }
     Ok(())
 }
 fn v_reject_all(prog: &[u8]) -> Result<(), Error> {
     vlog(V_REJECT_ALL, prog);
+    rejecting(prog);
     verr("reject-all")
 }
 fn v_tag_even(prog: &[u8]) -> Result<(), Error> {
     if vlog(V_TAG_EVEN, prog) {
+        rejecting(prog);
         return verr("injected veto");
     }
     if prog.len() >= 8 && prog[4] % 2 == 0 {
         Ok(())
     } else {
+        rejecting(prog);
         verr("tag is not even")
     }
 }
 fn v_tag_odd(prog: &[u8]) -> Result<(), Error> {
     if vlog(V_TAG_ODD, prog) {
+        rejecting(prog);
         return verr("injected veto");
     }
     if prog.len() >= 8 && prog[4] % 2 == 1 {
         Ok(())
     } else {
+        rejecting(prog);
         verr("tag is not odd")
     }
 }
@@ -347,7 +366,12 @@ fn calc_fn(prog: &[u8], pc: usize, data: &mut dyn Any) -> u16 {
         Some(c) => *c,
         None => *data.downcast_ref::<Box<dyn Any>>().and_then(|b| b.downcast_ref::<u8>()).expect("calculator data"),
     };
-    tls(|t| t.calc_calls += 1);
+    tls(|t| {
+        t.calc_calls += 1;
+        if t.rejected == Some(simcore::hash_bytes(prog)) {
+            t.calc_after_rejection += 1;
+        }
+    });
     calc_value(cid, pc, if prog.len() >= 8 { prog[4] } else { 0 })
 }
 
